@@ -16,7 +16,7 @@ import time
 from collections import Counter
 from pathlib import Path
 
-from . import common, drv, drv_sweep as sw, tables
+from . import common, drv, drv_findings as dfind, drv_sweep as sw, tables
 
 PID = "C04"
 
@@ -203,15 +203,16 @@ def check(run: common.Run):
     step = {"quick": {"constants": 2, "functions": 3, "repo": 6, "constructs": 1, "blank_runs": 3}, "thorough": {}}[run.tier]
     extra = [w for ws in list(WITNESS.values()) + list(FIXED_WITNESS.values()) for w in ws]
     fam["witnesses"] = extra
-    for name in ("witnesses", "tiny", "imports", "resources", "aggregates", "invalid", "indented", "tabs", "eof", "constructs", "constants",
-                 "functions", "repo", "blank_runs"):
+    for name in ("witnesses", "tiny", "unorderable", "first_statement", "oneline_compound", "decorated_constant", "compile_only",
+                 "imports", "resources", "aggregates", "invalid", "indented", "tabs", "eof", "constructs", "constants",
+                 "functions", "repo", "blank_runs", "alias_chains"):
         srcs = fam[name][::step.get(name, 1)]
         for i, s in enumerate(srcs):
             if run.tier == "thorough" or name in ("witnesses", "invalid", "indented", "tabs", "eof"):
                 combos = sw.OPTION_COMBOS
             elif name == "imports":        # keep_imports decides whether the import tracers run
                 combos = [sw.OPTION_COMBOS[j] for j in (0, 2, 5, 7)]
-            elif name == "tiny":
+            elif name in ("tiny", "first_statement", "oneline_compound", "decorated_constant", "compile_only"):
                 combos = [sw.OPTION_COMBOS[j] for j in (0, 7)]
             elif name in ("resources", "aggregates"):
                 combos = [sw.OPTION_COMBOS[j] for j in ((0, 5) if name == "resources" else (i % 8,))]
@@ -245,7 +246,7 @@ def check(run: common.Run):
             continue
         if r["error"]:
             e = r["error"]
-            f = match_finding(findings, e)
+            f = match_finding(findings, e) or dfind.match(findings, {e["stage"], e["inner"], "main.format_code"}, e["input"])
             if f is not None:
                 sweep[f"matched {f.id}"] += 1
                 continue
